@@ -58,10 +58,12 @@ UPostfixBase(e, L) ==
 UAtomish(e, L) == IF e.k \in {"cond", "un"} \/ (L.par = "full" /\ e.k \in {"bin", "test", "filt"})
                   THEN Paren(UE(e, L)) ELSE UE(e, L)
 
+\* a string literal is written between single quotes; a quote or a backslash inside it is written with a backslash before it
+SrcStr(s) == Flatten([i \in 1..Len(s) |-> IF s[i] \in {39, 92} THEN <<92, s[i]>> ELSE <<s[i]>>])
 RECURSIVE ULit(_)
 ULit(v) ==
     CASE v.t = "int"  -> IF v.i < 0 THEN <<W("-"), C(NatDigits(-v.i))>> ELSE <<C(NatDigits(v.i))>>
-      [] v.t = "str"  -> <<W("'"), C(v.s), W("'")>>
+      [] v.t = "str"  -> <<W("'"), C(SrcStr(v.s)), W("'")>>
       [] v.t = "bool" -> <<W(IF v.b THEN "true" ELSE "false")>>
       [] v.t = "null" -> <<W("null")>>
       [] v.t = "id"   -> <<W("'"), W(v.id), W("'")>>
@@ -81,7 +83,7 @@ UHashBody(ks, vs, L) ==
          \o (IF Len(ks) > 1 THEN <<W(",")>> \o Sep(L) \o UHashBody(Tail(ks), Tail(vs), L) ELSE <<>>)
 
 UE(e, L) ==
-    CASE e.k = "lit" -> ULit(e.v)
+    CASE e.k = "lit" -> (IF "raw" \in DOMAIN e THEN <<W(e.raw)>> ELSE ULit(e.v))     \* raw: the literal as it is spelled (010, 007)
       [] e.k = "var" -> <<W(e.n)>>
       [] e.k = "bin" -> UOperand(e.l, e.op, "left", L) \o Gap(e.op, L) \o <<W(e.op)>> \o Gap(e.op, L)
                         \o UOperand(e.r, e.op, "right", L)
@@ -130,7 +132,8 @@ UNames(names, als) ==
 US(s, L) ==
     CASE s.k = "text" -> <<C(s.c)>>
       [] s.k = "print" -> <<VO, W(" ")>> \o UE(s.e, L) \o <<W(" "), VC>>
-      [] s.k = "comment" -> <<[o |-> "{#"], C(s.c), [cl |-> "#}"]>>
+      \* (written as plain pieces: the dashes of C13 are those of print and block tags)
+      [] s.k = "comment" -> <<W("{#"), C(s.c), W("#}")>>
       [] s.k = "verbatim" -> Tag(<<W("verbatim")>>) \o <<C(s.c)>> \o Tag(<<W("endverbatim")>>)
       [] s.k = "do" -> Tag(<<W("do"), W(" ")>> \o UE(s.e, L))
       [] s.k = "set" -> Tag(<<W("set"), W(" "), W(s.n), W(" "), W("="), W(" ")>> \o UE(s.e, L))
